@@ -1375,6 +1375,11 @@ func marshalQueryValue(typ TypeInfo, value interface{}, dst *queryValues) error 
 
 		dst.value = val
 	} else {
+		if typ.Version() < protoVersion4 {
+			// "not set" (length -2) exists from protocol 4 on; older versions
+			// read any negative length as null, which would delete the column
+			return fmt.Errorf("gocql: UnsetValue needs protocol version 4 or higher, the connection uses version %d", typ.Version())
+		}
 		dst.isUnset = true
 	}
 
